@@ -264,6 +264,24 @@ def fam_c34_multipanic(pars):
     return dedup(sib), dedup(nested)
 
 
+NODES7 = ["a", "b", "c", "d", "e", "f", "g"]
+
+
+def fam_c33_fresh_leaf():
+    """Fan-in on a fresh leaf: k = 3..6 sibling queries of one batch, all depending on the same leaf that nobody has
+    requested yet, par >= k; the driver makes the siblings rendezvous before their Resolve so that their first
+    requests of the leaf (Executor.getOrCreateTask) coincide.  From the statement: the leaf executes once per run,
+    and after Evict(leaf) the leaf and every sibling are re-executed.  Replay only (many repetitions)."""
+    cases = []
+    for k in (3, 4, 5, 6):
+        sibs = NODES7[1:k + 1]
+        bat = {n: ([["a"]] if n in sibs else []) for n in NODES7}
+        for par in (k, k + 2):
+            cases.append(({"bat": bat, "pan": [], "par": par,
+                           "plan": [runop(sibs), evict("a"), runop(list(reversed(sibs))), evict("a"), runop(sibs)]}, sibs))
+    return cases
+
+
 def dedup(cases):
     seen, out = set(), []
     for c in cases:
@@ -377,6 +395,7 @@ def drive(wd, binary, name, cases, reps, verdict, acc, trace=True, max_traces=No
         for m in res.get("mismatches") or []:
             verdict.disagree(m["class"], {"cfg": case["cfg"], "exp": case["exp"], "order": case["order"],
                                           "hold": case.get("hold", ""), "panic_always": case.get("panic_always", False),
+                                          "rendezvous": case.get("rendezvous", []),
                                           "step": m["step"]}, m["detail"])
     acc.cases += len(cases)
     for c in cases:
@@ -541,7 +560,7 @@ def run(pid, tier, replay=None):
             c = e["case"]
             if c.get("cfg") and c.get("exp"):
                 cases.append({"cfg": c["cfg"], "exp": c["exp"], "order": c["order"],
-                              "panic_always": c.get("panic_always", False)})
+                              "panic_always": c.get("panic_always", False), "rendezvous": c.get("rendezvous", [])})
             elif c.get("cfg"):
                 bare.append(c)                       # a rejected trace: expectations are recomputed by the oracle
         for c in bare:
@@ -567,6 +586,12 @@ def run(pid, tier, replay=None):
         exported.append((name, nodes, got))
     for name, nodes, cases in ro:
         exported.append((name, nodes, export_cases(wd, name, nodes, cases)))
+    fresh = None
+    if pid == "C33":
+        fl = fam_c33_fresh_leaf()
+        fresh = export_cases(wd, "c33fresh", NODES7, [c for c, _s in fl])
+        for c in fresh:
+            c["rendezvous"] = fl[c["cfg"]["id"] - 1][1]
     if pid == "C34":
         sib, nested = fam_c34_multipanic((1, 2, 3) if thorough else (1, 2))
         got = export_cases(wd, "c34multi", NODES3, sib + nested)
@@ -581,6 +606,8 @@ def run(pid, tier, replay=None):
     for name, nodes, cases in exported:
         tp = drive(wd, binary, name, cases, reps, verdict, acc)
         tfiles.append((name, nodes, tp))
+    if fresh:
+        drive(wd, binary, "c33fresh", fresh, 60 if thorough else 30, verdict, acc, trace=False)
     # 3. direction B: validate the recorded executions (a seed-dependent selection of whole traces)
     sel = os.path.join(wd, "traces_selected.ndjson")
     n_sel = select_traces([tp for _n, _nd, tp in tfiles], sel, trace_budget, rng)
